@@ -149,7 +149,8 @@ class TaskTiming(Contract):
         # ... and an optional task can always be left out (witness: the library's own convention
         # start = end = -task_number, duration 0), whatever its release date / due date
         if case["optional"]:
-            wit = [(t._start, z3.IntVal(-k)), (t._end, z3.IntVal(-k))]
+            pp = spec.past_point(t)
+            wit = [(t._start, z3.IntVal(pp)), (t._end, z3.IntVal(pp))]
             if case["cls"] == "VariableDurationTask":
                 wit.append((t._duration, z3.IntVal(0)))
             goal = z3.substitute(And(*A), *wit)
